@@ -311,4 +311,21 @@ func verifH_C01_resend() {
 		verifReach("failed")
 	}
 	verifAssert(conn.wafterBreak == 0, "C08: write after a failed write")
+	// whatever was written completely in this pass is a re-delivery from now on
+	mark := func(q []verifEntry) {
+		end := 0
+		for i := range q {
+			end += len(q[i].packet)
+			if end <= k {
+				q[i].written = true
+			}
+		}
+	}
+	if level == 1 {
+		mark(o.q1)
+	} else {
+		mark(o.q2)
+	}
+	o.observe("C05(after resend)")
+	o.drain("C05(after resend)")
 }
